@@ -32,69 +32,24 @@ def run(R, tier):
     u = P.unit("scpi")
     eng = fdai.Engine(P, u, inline=lambda n, r: r.endswith("error::Error::new") or "From<error::ErrorCode>>::from" in r, models={})
 
-    # ---- R19.1 / R19.2 tuple conversions ------------------------------------------------------------
-    convs = [b for b in u.bodies if b.name == "try_from" and "TryFrom<parser::expression::channel_list::ChannelSpec" in (b.impl_trait or "")]
-    R.floor("R19.1", "ChannelSpec conversions", len(convs), 6)
-    for b in convs:
-        ty = b.impl_self
-        n = tuple_arity(ty)
-        res = eng.run(b, [SymV("spec", "spec")])
-        ps = [CB.Path(r) for r in res]
-        if "isize" in ty:
-            good = bool(ps)
-            n_ok = 0
-            for p in ps:
-                dim = [e for e in p.r.trace if e.kind == "assume" and e.name == "sym" and isinstance(e.args[0][2], tuple) and e.args[0][2][0] == "binop" and e.args[0][2][1] in ("Eq", "Ne") and "dimension" in repr(e.args[0][2])]
-                if len(dim) != 1 or ("K", n) not in (dim[0].args[0][2][3], dim[0].args[0][2][2]):
-                    good = False
-                    continue
-                dim_matches = dim[0].args[1] if dim[0].args[0][2][1] == "Eq" else (not dim[0].args[1])
-                if dim_matches is False:
-                    good = good and p.outcome.startswith("Err(") and p.count("next") == 0
-                    continue
-                iters = [e for e in p.calls if e.name.endswith("IntoIterator::into_iter")]
-                nexts = [e for e in p.calls if e.name.endswith("Iterator::next")]
-                if len(iters) != 1 or ("sym", "spec", "spec") not in _flat(iters[0].args[0]):
-                    good = False
-                    continue
-                # all draws come from the one iterator created from the spec
-                cells = {e.args[0][1] for e in nexts if e.args[0][0] == "ref"}
-                if len(cells) != 1 or any(e.args[0][0] != "ref" for e in nexts) or any("into_iter" not in repr(e.args[0]) and "top" not in repr(e.args[0][3:]) for e in nexts):
-                    good = False
-                if M.outcome(p.r) == "Ok":
-                    n_ok += 1
-                    v = p.r.retval.fields.get(0)
-                    elems = [v.fields[i] for i in sorted(v.fields)] if isinstance(v, AggV) and n > 1 else [v]
-                    if len(elems) != n or len(nexts) != n:
-                        good = False
-                        continue
-                    for i, el in enumerate(elems):
-                        s_ = repr(snapshot(el))
-                        # i-th element = value drawn by the i-th next()
-                        site = "Iterator::next', %d," % nexts[i].site
-                        if site not in s_:
-                            good = False
-            R.check(good and n_ok == 1, "R19.1", "tuple:%s" % ty, "dimension() == %d; one iterator; element i is the i-th value drawn" % n, "conversion of a channel spec to %s must check dimension == %d and draw its %d elements, in order, from ONE iterator over the spec: %s" % (ty, n, n, [p.describe() for p in ps][:4]), where=b.span)
-        else:
-            good = bool(ps)
-            n_ok = 0
-            for p in ps:
-                if M.outcome(p.r) != "Ok":
-                    continue
-                n_ok += 1
-                first = p.calls[0]
-                g = (first.extra or {}).get("gargs") or ()
-                src_ok = first.name.endswith("TryInto::try_into") and len(g) > 1 and g[1].count("isize") == n and ("sym", "spec", "spec") in _flat(first.args[0])
-                v = p.r.retval.fields.get(0)
-                elems = [v.fields[i] for i in sorted(v.fields)] if isinstance(v, AggV) and n > 1 else [v]
-                if not src_ok or len(elems) != n:
-                    good = False
-                    continue
-                for i, el in enumerate(elems):
-                    fl = [x for x in _flat(snapshot(el)) if x and x[0] == "field" and isinstance(x[1], int)]
-                    if n > 1 and (not fl or fl[0][1] != i):
-                        good = False
-            R.check(good and n_ok == 1, "R19.1", "tuple:%s" % ty, "converts through the signed tuple and keeps the element order" , "conversion of a channel spec to %s must convert element i of the signed tuple into element i: %s" % (ty, [p.describe() for p in ps][:3]), where=b.span)
+    # ---- R19.1 tuple conversions: decided by value (R19.10). The earlier path-shape rule ("one iterator, dimension test,
+    # element i from the i-th draw; unsigned through the signed tuple") demanded one particular organisation of the code and
+    # reported behaviour-preserving rewrites (shared generic helper, direct unsigned parse); it is retired.
+    # ---- R19.10 value tables of the conversions (sa/rules/chanspec.py) -----------------------------------------------------
+    from . import chanspec as CS
+    tab = CS.table()
+    per = {}
+    for (ty, txt), (got, ref, cb) in sorted(tab.items(), key=lambda kv: (kv[0][0], kv[0][1])):
+        d = per.setdefault(ty, {"n": 0, "bad": [], "body": cb})
+        d["n"] += 1
+        if ref[0] == "Ok":
+            if got != ref:
+                d["bad"].append("%r converts to %s, the text denotes %s" % (txt, got, ref[1]))
+        elif got[0] != "Err":
+            d["bad"].append("%r converts to %s, expected an error (%s)" % (txt, got, "dimension count differs" if ref[1] == "syntax" else "number not representable"))
+    for ty, d in sorted(per.items()):
+        R.check(not d["bad"], "R19.1", "values:%s" % ty, "element i is the i-th number of the text; other dimension counts and unrepresentable numbers are refused (%d specs)" % d["n"], "; ".join(d["bad"][:3]), where=d["body"].span)
+    R.floor("R19.1", "ChannelSpec conversions", len(per), 6)
 
     # ---- R19.9 / R19.3 NumericList::next start-set table -----------------------------------------------------
     nb = u.impl_methods("core::iter::Iterator", "next", "numeric_list::NumericList")
